@@ -85,28 +85,14 @@
   (let ((raw (select (select (Mem h) (sla a)) j)))
     (ite (= (slf a) 4) (VStr (vstr raw)) (ite (= (slf a) 5) (VBool (vbool raw))
     (ite (= (slf a) 6) (VInt (vint raw)) (ite (= (slf a) 7) (VFloat (vfloat raw)) raw))))))
-(assert (forall ((h Heap) (a Val) (j Int)) (!
-  (=> (and ((_ is VSl) a) (okNative a) (<= (slo a) j) (< j (+ (slo a) (sll a)))) (okArg h (natElem h a j)))
-  :pattern ((okNative a) (select (select (Mem h) (sla a)) j)))))
-(assert (forall ((h Heap) (a Val) (j Int)) (!
-  (=> (and ((_ is VSl) a) (supp a) (<= (slo a) j) (< j (+ (slo a) (sll a)))) (supp (natElem h a j)))
-  :pattern ((supp a) (select (select (Mem h) (sla a)) j)))))
+(assert (forall ((h Heap) (a Val) (j Int)) (! (=> (gh h) (=> (and ((_ is VSl) a) (okNative a) (<= (slo a) j) (< j (+ (slo a) (sll a)))) (okArg h (natElem h a j)))) :pattern ((okNative a) (select (select (Mem h) (sla a)) j)))))
+(assert (forall ((h Heap) (a Val) (j Int)) (! (=> (gh h) (=> (and ((_ is VSl) a) (supp a) (<= (slo a) j) (< j (+ (slo a) (sll a)))) (supp (natElem h a j)))) :pattern ((supp a) (select (select (Mem h) (sla a)) j)))))
 (declare-fun badAt (Val) Int)   ; witness position of a rejected element
-(assert (forall ((h Heap) (a Val)) (!
-  (=> (and ((_ is VSl) a) (flavOK (slf a)) (not (supp a)))
-      (and (<= (slo a) (badAt a)) (< (badAt a) (+ (slo a) (sll a))) (not (supp (natElem h a (badAt a))))))
-  :pattern ((supp a) (Mem h)))))
+(assert (forall ((h Heap) (a Val)) (! (=> (gh h) (=> (and ((_ is VSl) a) (flavOK (slf a)) (not (supp a))) (and (<= (slo a) (badAt a)) (< (badAt a) (+ (slo a) (sll a))) (not (supp (natElem h a (badAt a))))))) :pattern ((supp a) (Mem h)))))
 (declare-fun badKey (Val) Str)
-(assert (forall ((h Heap) (a Val) (k Str)) (!
-  (=> (and ((_ is VMp) a) (okNative a) (select (select (MDom h) (mpi a)) k)) (okArg h (natVal h a k)))
-  :pattern ((okNative a) (select (select (MVal h) (mpi a)) k)))))
-(assert (forall ((h Heap) (a Val) (k Str)) (!
-  (=> (and ((_ is VMp) a) (supp a) (select (select (MDom h) (mpi a)) k)) (supp (natVal h a k)))
-  :pattern ((supp a) (select (select (MVal h) (mpi a)) k)))))
-(assert (forall ((h Heap) (a Val)) (!
-  (=> (and ((_ is VMp) a) (flavOK (mpf a)) (not (supp a)))
-      (and (select (select (MDom h) (mpi a)) (badKey a)) (not (supp (natVal h a (badKey a))))))
-  :pattern ((supp a) (MVal h)))))
+(assert (forall ((h Heap) (a Val) (k Str)) (! (=> (gh h) (=> (and ((_ is VMp) a) (okNative a) (select (select (MDom h) (mpi a)) k)) (okArg h (natVal h a k)))) :pattern ((okNative a) (select (select (MVal h) (mpi a)) k)))))
+(assert (forall ((h Heap) (a Val) (k Str)) (! (=> (gh h) (=> (and ((_ is VMp) a) (supp a) (select (select (MDom h) (mpi a)) k)) (supp (natVal h a k)))) :pattern ((supp a) (select (select (MVal h) (mpi a)) k)))))
+(assert (forall ((h Heap) (a Val)) (! (=> (gh h) (=> (and ((_ is VMp) a) (flavOK (mpf a)) (not (supp a))) (and (select (select (MDom h) (mpi a)) (badKey a)) (not (supp (natVal h a (badKey a))))))) :pattern ((supp a) (MVal h)))))
 (define-fun domAt ((h Heap) (a Val) (k Str)) Bool (select (select (MDom h) (mpi a)) k))
 ; natively typed slices / maps of string, bool, int, float64 hold values of that type (Go's typing)
 (assert (forall ((a Val)) (! (=> (and ((_ is VSl) a) (<= 4 (slf a)) (<= (slf a) 7)) (okNative a)) :pattern ((okNative a)))))
